@@ -22,7 +22,16 @@ Documented rules used:
   accepts (a callback decides for itself), and nothing otherwise;
 * a second connection with the same configurations resumes iff both sides have a cache and
   the server's policy admits the recorded session (a NoClientCert server does not resume a
-  session that recorded client certificates; it then does a full handshake again).
+  session that recorded client certificates; it then does a full handshake again);
+* histories (any number of connections between the same two parties, the enabled suites,
+  protocol lists, Clone() and the server's use of its session cache possibly changing in
+  between): EVERY connection ends as the configurations in use at that moment prescribe — it
+  succeeds iff they are compatible; it is either a full handshake, judged exactly like a first
+  connection, or the resumption of the most recent full handshake, and then both ends report
+  that session's suite and certificates, the suite must still be enabled (and keyed) on both
+  sides of the configurations now in use, the application protocol is negotiated afresh, and
+  both configurations must have a session cache.  When a session is resumed is not
+  prescribed here beyond the second-connection rule above (that is C10).
 -/
 import Gotlcp.Model.NegotiateCfg
 
@@ -134,6 +143,45 @@ def resumable (c : ClientCfg) (s : ServerCfg) : Bool :=
   !(s.auth == .noClientCert && !(clientCertsSeen c s ((mutualSuite c s).getD 0)).isEmpty)
 
 def expectedNext (c : ClientCfg) (s : ServerCfg) : Agreed := expectedWith (resumable c s) c s
+
+/-! ### histories -/
+
+/-- what both ends report when a connection resumes the session established by the earlier
+connection `o`: suite and certificates are the session's, everything else is negotiated now -/
+def resumedFrom (o : Agreed) (c : ClientCfg) (s : ServerCfg) : Agreed :=
+  let proto := (alpnRule s.alpn c.alpn).getD ""
+  { client := { vers := docVersion, suite := o.client.suite, alpn := proto, resumed := true,
+                peerCerts := o.client.peerCerts, serverName := c.serverName },
+    server := { vers := docVersion, suite := o.client.suite, alpn := proto, resumed := true,
+                peerCerts := o.server.peerCerts,
+                serverName := if c.nameIsIP then "" else c.serverName } }
+
+/-- Judgement of one connection of a history.  `c`, `s`: the configurations in use;
+`origin`: what the most recent successful full handshake of the history reported (if any);
+`obs`: what the two ends report (`none` = the handshake failed on both). -/
+def connOK (c : ClientCfg) (s : ServerCfg) (origin : Option Agreed) (obs : Option Agreed) : Bool :=
+  match obs with
+  | none => !compatible c s
+  | some a =>
+    compatible c s &&
+    (if a.client.resumed || a.server.resumed then
+      match origin with
+      | none => false
+      | some o => c.cache && s.cache && usable c s o.client.suite && a == resumedFrom o c s
+     else a == expected c s)
+
+/-- the session later connections may resume -/
+def nextOrigin (origin : Option Agreed) (obs : Option Agreed) : Option Agreed :=
+  match obs with
+  | none => origin
+  | some a => if a.client.resumed || a.server.resumed then origin else some a
+
+/-- every connection of a history of the parties `c`, `s` is as prescribed -/
+def historyOK (c : ClientCfg) (s : ServerCfg) : Option Agreed → List Reconf → List (Option Agreed) → Bool
+  | _, [], [] => true
+  | o, r :: rs, x :: xs =>
+    connOK (r.client c) (r.server s) o x && historyOK c s (nextOrigin o x) rs xs
+  | _, _, _ => false
 
 /-- the parameters both ends must agree on -/
 def viewsAgree (a : Agreed) : Bool :=
